@@ -15,12 +15,11 @@ import random
 import subprocess
 import time
 from concurrent.futures import ThreadPoolExecutor
-from pathlib import Path
 from typing import Optional
 
 from ..common import Check, InfraError, LEAN, CORPUS, run_cmd, first_diff
 from . import designgen
-from .analysis import Desc, classify
+from .analysis import Desc
 
 DRIVER = "Core"
 
@@ -73,7 +72,7 @@ def make_views(b, desc: Desc, obs) -> list:
     return views
 
 
-SETTLE_TIMEOUT_S = 40
+SETTLE_TIMEOUT_S = 20  # CPU seconds
 
 
 class _Unsettled(Exception):
@@ -81,22 +80,23 @@ class _Unsettled(Exception):
 
 
 def _with_watchdog(seconds: int, fn, *args):
-    """run `fn(*args)` under a SIGALRM watchdog (main thread of the worker process)"""
+    """run `fn(*args)` under a watchdog on the *CPU time* of this process (ITIMER_VIRTUAL: independent of
+    machine load).  A settling simulation needs well under a second of CPU; an oscillating one never ends."""
     import signal
 
     def onalarm(signum, frame):
         raise _Unsettled()
 
     try:
-        old = signal.signal(signal.SIGALRM, onalarm)
+        old = signal.signal(signal.SIGVTALRM, onalarm)
     except ValueError:  # not in the main thread: no watchdog
         return fn(*args)
-    signal.alarm(seconds)
+    signal.setitimer(signal.ITIMER_VIRTUAL, seconds)
     try:
         return fn(*args)
     finally:
-        signal.alarm(0)
-        signal.signal(signal.SIGALRM, old)
+        signal.setitimer(signal.ITIMER_VIRTUAL, 0)
+        signal.signal(signal.SIGVTALRM, old)
 
 
 def eval_design(design: dict, pid: str, n_random: int, only_vals: Optional[list] = None, max_patterns: Optional[int] = None) -> dict:
@@ -131,11 +131,14 @@ def eval_design(design: dict, pid: str, n_random: int, only_vals: Optional[list]
     else:
         vals, exh = simcore.valuations(widths, random.Random(design.get("vseed", 0)), n_random, max_patterns)
     try:
-        obs = _with_watchdog(SETTLE_TIMEOUT_S + len(vals) // 50, simcore.simulate, b, vals)
+        try:
+            obs = _with_watchdog(SETTLE_TIMEOUT_S + len(vals) // 50, simcore.simulate, b, vals)
+        except _Unsettled:  # once more with a much larger budget before calling it a loop
+            obs = _with_watchdog(4 * SETTLE_TIMEOUT_S + len(vals) // 10, simcore.simulate, b, vals)
     except _Unsettled:
         # the real circuit does not settle: a combinational loop through run/ready signals.  The model
         # evaluates the same equations in one pass, so this is a divergence of corr:core (and C10's business).
-        out["aux"] = f"pysim did not settle within {SETTLE_TIMEOUT_S}s on the first valuations: combinational loop in the generated logic?"
+        out["aux"] = f"pysim did not settle within {4 * SETTLE_TIMEOUT_S} CPU seconds: combinational loop in the generated logic?"
         return out
     out["nvals"] = len(vals)
     out["exhaustive"] = exh
@@ -183,7 +186,7 @@ def gen_for(pid: str, index: int, seed: int, tier: str) -> dict:
     rng = random.Random(f"{pid}/{seed}/{index}")
     P = dict(EMPHASIS.get(pid, {}))
     if tier == "thorough" and index % 5 == 4:
-        P.update({"n_trans": (3, 7), "n_meth": (3, 8), "max_depth": 3})
+        P.update({"n_trans": (3, 7), "n_meth": (3, 8), "max_depth": 3, "max_chains": 300})
     if pid == "C11":
         r = index % 10
         if r < 6:
@@ -247,6 +250,77 @@ def lean_outputs(ctx: Check, batches: list[list[str]], procs: int) -> list[list[
             res[ci + j * procs] = outs[ci][pos : pos + len(b)]
             pos += len(b)
     return res
+
+
+class LeanStream:
+    """`k` Lean driver processes started up front; designs are written to their stdin as soon as the
+    real code has produced them, so the (seconds long) start-up of `lean --run` and the model's work
+    overlap with elaboration/pysim of the remaining designs."""
+
+    def __init__(self, k: int):
+        import threading
+
+        self.k = max(1, k)
+        self.procs = []
+        self.outbuf: list[list[str]] = []
+        self.errbuf: list[list[str]] = []
+        self.threads = []
+        self.fed: list[list[int]] = [[] for _ in range(self.k)]  # per process: number of lines per design
+        self.n = 0
+        for i in range(self.k):
+            pr = subprocess.Popen(["lake", "env", "lean", "--run", f"Driver/{DRIVER}.lean"], cwd=LEAN, stdin=subprocess.PIPE,
+                                  stdout=subprocess.PIPE, stderr=subprocess.PIPE, text=True, bufsize=1 << 16)
+            self.procs.append(pr)
+            ob: list[str] = []
+            eb: list[str] = []
+            self.outbuf.append(ob)
+            self.errbuf.append(eb)
+            for stream, buf in ((pr.stdout, ob), (pr.stderr, eb)):
+                th = threading.Thread(target=lambda s=stream, b=buf: b.extend(s.read().split("\n")), daemon=True)
+                th.start()
+                self.threads.append(th)
+
+    def feed(self, lines: list[str]):
+        i = self.n % self.k
+        self.n += 1
+        self.fed[i].append(len(lines))
+        try:
+            self.procs[i].stdin.write("\n".join(lines) + "\n")
+        except (BrokenPipeError, OSError):
+            pass  # reported by finish()
+
+    def finish(self) -> Optional[list[list[str]]]:
+        """outputs per design in feeding order, or None if a driver process failed (caller falls back)"""
+        for pr in self.procs:
+            try:
+                pr.stdin.close()
+            except (BrokenPipeError, OSError):
+                pass
+        for pr in self.procs:
+            pr.wait()
+        for th in self.threads:
+            th.join()
+        per: list[list[list[str]]] = []
+        for i, pr in enumerate(self.procs):
+            out = self.outbuf[i]
+            if out and out[-1] == "":
+                out.pop()
+            if pr.returncode != 0 or len(out) != sum(self.fed[i]):
+                self.error = "\n".join(self.errbuf[i])[-2000:] + "\n".join(out[-3:])
+                return None
+            pos, chunks = 0, []
+            for ln in self.fed[i]:
+                chunks.append(out[pos : pos + ln])
+                pos += ln
+            per.append(chunks)
+        return [per[j % self.k][j // self.k] for j in range(self.n)]
+
+    def kill(self):
+        for pr in self.procs:
+            try:
+                pr.kill()
+            except OSError:
+                pass
 
 
 def build_models(ctx: Check, tries: int = 3):
@@ -326,7 +400,7 @@ def replay_witness_for(pid: str):
 
 
 # ------------------------------------------------------------------------------------ main entry
-def run_core(ctx: Check, pid: str, n_quick: int = 110, n_thorough: int = 3000):
+def run_core(ctx: Check, pid: str, n_quick: int = 110, n_thorough: int = 2400):
     ctx.rule = "cases = (abstract design, input valuation); non-trivial = " + RULES[pid]
     props = LEAN / "TxV" / "Props" / f"{pid}.lean"
     tm0 = time.time()
@@ -358,7 +432,7 @@ def run_core(ctx: Check, pid: str, n_quick: int = 110, n_thorough: int = 3000):
     n = ctx.pick(n_quick, n_thorough)
     if os.environ.get("VERIF_CORE_N"):  # for experiments (mutation runs); not used by the normal check
         n = int(os.environ["VERIF_CORE_N"])
-    n_random = ctx.pick(24, 96)
+    n_random = ctx.pick(24, 64)
     procs = min(4, os.cpu_count() or 1) if ctx.quick else min(16, os.cpu_count() or 1)
     if os.environ.get("VERIF_PROCS"):
         procs = int(os.environ["VERIF_PROCS"])
@@ -375,29 +449,32 @@ def run_core(ctx: Check, pid: str, n_quick: int = 110, n_thorough: int = 3000):
                 r["design"].setdefault("tag", "corpus")
                 results.append(r)
                 ctx.count("cases_corpus")
-    # The Lean driver is started on the first part of the designs while the real code is still
-    # being run on the rest (one `lean --run` start-up costs seconds; per line it is cheap).
+    # The Lean driver processes are started now and fed while the real code is still being run.
     lean_procs = 1 if ctx.quick else procs
-    early: list = []
-    ex = ThreadPoolExecutor(1)
-    fut = None
-    if procs > 1:
-        with mp.get_context("fork").Pool(procs) as pool:
-            it = pool.imap(_work, jobs, chunksize=max(1, n // (procs * 8)))
-            cut = len(jobs) * 3 // 5 if ctx.quick else 0
-            for _ in range(cut):
-                early.append(next(it))
-            early = results + early
-            results = []
-            if early and not any("error" in r for r in early):
-                fut = ex.submit(lean_outputs, ctx, [r["lean_in"] for r in early], lean_procs)
-            results = early + list(it)
-    else:
-        results += [_work(j) for j in jobs]
+    stream = LeanStream(lean_procs)
+    try:
+        for r in results:  # corpus
+            stream.feed(r["lean_in"])
+        if procs > 1:
+            with mp.get_context("fork").Pool(procs) as pool:
+                for r in pool.imap(_work, jobs, chunksize=max(1, min(8, n // (procs * 8)))):
+                    results.append(r)
+                    if "error" not in r:
+                        stream.feed(r["lean_in"])
+        else:
+            for j in jobs:
+                r = _work(j)
+                results.append(r)
+                if "error" not in r:
+                    stream.feed(r["lean_in"])
+    except BaseException:
+        stream.kill()
+        raise
 
     tm3 = time.time()
     errors = [r for r in results if "error" in r]
     if errors:
+        stream.kill()
         raise InfraError(f"harness error on design {errors[0]['design'].get('id')}: {errors[0]['error']}\n{errors[0]['trace']}")
 
     # ---- monitor verdicts
@@ -420,20 +497,17 @@ def run_core(ctx: Check, pid: str, n_quick: int = 110, n_thorough: int = 3000):
 
     # ---- Lean model on the same designs / valuations
     tm4 = time.time()
-    if fut is not None:
-        rest = results[len(early):]
-        outs = (lean_outputs(ctx, [r["lean_in"] for r in rest], lean_procs) if rest else [])
-        outs = fut.result() + outs
-    else:
+    outs = stream.finish()
+    if outs is None:  # a driver process failed (e.g. a shared module was being rebuilt): one-shot fallback
+        ctx.note("streaming Lean driver failed, falling back to batch mode: " + getattr(stream, "error", "")[-300:])
+        build_models(ctx)
         outs = lean_outputs(ctx, [r["lean_in"] for r in results], lean_procs)
-    ex.shutdown(wait=False)
     tm5 = time.time()
     ctx.note(f"wall: proof stage {tm1 - tm0:.1f}s, model build {tm2 - tm1:.1f}s, real code (procs={procs}) {tm3 - tm2:.1f}s, "
              f"Lean driver ({sum(len(r['lean_in']) for r in results)} lines) {tm5 - tm4:.1f}s")
     ndiv = 0
     for r, mo in zip(results, outs):
         d = first_diff(r["impl_out"], mo)
-        stats = r["stats"]
         nt = _nontrivial(pid, r)
         ctx.case(json.dumps(r["design"], sort_keys=True), nontrivial=nt, n=max(1, r["nvals"]))
         _count(ctx, r)
@@ -461,14 +535,18 @@ def run_core(ctx: Check, pid: str, n_quick: int = 110, n_thorough: int = 3000):
 
         def search(r=r):
             # more valuations on the diverging design, then more designs of the same stream
+            t_end = time.time() + ctx.pick(45, 300)  # the search is bounded in time
             rr = eval_design(r["design"], pid, 400)
             if rr["viol"]:
                 return rr["viol"], {"design": r["design"], "valuations": [rr.get("viol_val")], "impl_observation": rr.get("viol_obs")}
-            for i in range(n, n + ctx.pick(150, 600)):
-                w = _work((pid, i, ctx.seed, ctx.tier, n_random))
-                ctx.count("search_cases")
-                if w.get("viol"):
-                    return w["viol"], {"design": w["design"], "valuations": [w.get("viol_val")], "impl_observation": w.get("viol_obs")}
+            extra = [(pid, i, ctx.seed, ctx.tier, n_random) for i in range(n, n + ctx.pick(150, 600))]
+            with mp.get_context("fork").Pool(procs) as pool:
+                for w in pool.imap_unordered(_work, extra, chunksize=2):
+                    ctx.count("search_cases")
+                    if w.get("viol"):
+                        return w["viol"], {"design": w["design"], "valuations": [w.get("viol_val")], "impl_observation": w.get("viol_obs")}
+                    if time.time() > t_end:
+                        break
             return None
 
         ctx.divergence("corr:core", detail, search)
